@@ -78,6 +78,15 @@ func init() {
 				} else {
 					fmt.Println("res not-open")
 				}
+			case "merge":
+				// the holder writes a little and runs Merge: a finished, not yet adopted merge now sits beside the directory
+				if db != nil {
+					_ = db.Put([]byte("m1"), kvh.GenValue(7, 30))
+					_ = db.Delete([]byte("k0"))
+					fmt.Println("res", kvh.ErrName(db.Merge()))
+				} else {
+					fmt.Println("res not-open")
+				}
 			case "reclose":
 				// a redundant Close of a handle that was closed before (defer + explicit Close)
 				if stale != nil {
@@ -157,12 +166,19 @@ type c16World struct {
 	labels   map[string]int
 }
 
+// dirSnapshot fingerprints the data directory and its sibling merge directory (names, sizes, contents).
 func dirSnapshot(dir string) string {
-	ents, _ := os.ReadDir(dir)
 	var parts []string
-	for _, e := range ents {
-		b, _ := os.ReadFile(filepath.Join(dir, e.Name()))
-		parts = append(parts, fmt.Sprintf("%s:%d:%x", e.Name(), len(b), kvh.Hash64(b)))
+	for _, d := range []string{dir, dir + "-merge"} {
+		ents, err := os.ReadDir(d)
+		if err != nil {
+			parts = append(parts, filepath.Base(d)+":absent")
+			continue
+		}
+		for _, e := range ents {
+			b, _ := os.ReadFile(filepath.Join(d, e.Name()))
+			parts = append(parts, fmt.Sprintf("%s/%s:%d:%x", filepath.Base(d), e.Name(), len(b), kvh.Hash64(b)))
+		}
 	}
 	sort.Strings(parts)
 	return strings.Join(parts, ";")
@@ -281,6 +297,26 @@ func (w *c16World) step(s c16Step) *kvh.Fail {
 		w.released = true
 		w.labels["release-by-close"]++
 		return w.lockFree()
+	case "merge":
+		// the current holder runs Merge, leaving a finished merge to be adopted by the next successful Open
+		if w.holder < 0 {
+			return nil
+		}
+		if w.holder < 2 {
+			db := w.handles[w.holder]
+			_ = db.Put([]byte("m1"), kvh.GenValue(7, 30))
+			_ = db.Delete([]byte("k0"))
+			if err := db.Merge(); err != nil {
+				return nil
+			}
+		} else {
+			c := w.children[w.holder-2]
+			_ = c.send("merge")
+			if r, err := c.recv(); err != nil || r != "res ok" {
+				return nil
+			}
+		}
+		w.labels["holder-finished-a-merge-(pending-adoption)"]++
 	case "reclose":
 		// a redundant Close on a handle this actor closed earlier; it must not disturb whoever holds the directory now
 		if w.holder == a {
@@ -407,6 +443,9 @@ func (w *c16World) step(s c16Step) *kvh.Fail {
 			}
 			if !hasData {
 				return nil
+			}
+			if _, err := os.Stat(w.dir + "-merge"); err == nil {
+				return nil // a pending merge will replace the rotated files at the next Open: damaging one proves nothing
 			}
 			// move every data file up by making a garbage file with id 0 only if id 0 is free is not possible; damage the lowest file instead
 			var lowest, newest string
@@ -612,9 +651,11 @@ func TestC16(t *testing.T) {
 				s.C = "open"
 			case x < 66:
 				s.C = "close"
-			case x < 72:
+			case x < 70:
 				s.C = "exit"
-			case x < 79:
+			case x < 76:
+				s.C = "merge"
+			case x < 80:
 				s.C = "reclose"
 			case x < 84:
 				s.C = "closeburst"
